@@ -426,6 +426,108 @@ func fmtAlone(v any) (s string, ok bool) {
 
 // a key whose text is new in this value (so that the order in which a Go map was walked can be
 // read off the output)
+// ---------- literals that END IN AN ESCAPE, and literal adjacency on one line ----------
+// The class: a literal whose last character is written as an escape (or whose last digit belongs to an
+// exponent / a hexadecimal number), standing directly before a delimiter ("]", ":", ",") and before another
+// literal of the same kind on the same line.  In the formatter's layout two literals share a line only as the
+// key and the value of an association, and a literal meets "]" only as the single item of an inline collection.
+// A scanner whose string / rune / number expression reads one character too many or too few shows here
+// (e.g. leftmost-longest instead of leftmost-first matching: "C:\\": "drive").
+var fEscTails = []string{"\\", "\"", "'", "\n", "\t", "\x00", "\x7f", "\u00ad", "\u2028", "\U000e0001", "\xff", "\\\\", "\\\"", "\\n", "\\x41"}
+
+func (g *fgen) genEscEndString() string {
+	r := g.r
+	g.stats.strClass["ends-in-escape"]++
+	head := ""
+	if r.chance(2, 3) {
+		head = []string{"a", "C:", "x y", "\u00e9", "\\", "\"", "k" + fmt.Sprint(r.intn(1000))}[r.intn(7)]
+	}
+	return head + fEscTails[r.intn(len(fEscTails))]
+}
+
+// a literal of the class: a string or rune ending in an escape, a float with an exponent, an unsigned number
+func (g *fgen) genEdgeLiteral() *fnode {
+	r := g.r
+	g.budget--
+	switch r.intn(8) {
+	case 0, 1, 2, 3:
+		g.stats.leafKinds["string"]++
+		return &fnode{kind: "string", prim: g.genEscEndString()}
+	case 4, 5:
+		g.stats.leafKinds["rune"]++
+		g.stats.runeClass["written-as-escape"]++
+		return &fnode{kind: "rune", prim: int64([]rune{'\\', '\'', '\n', '\t', 0, 0x7f, 0xad, 0x2028, 0xe0001, '"'}[r.intn(10)])}
+	case 6:
+		g.stats.leafKinds["float64"]++
+		g.stats.floatClass["adjacency-exponent"]++
+		return &fnode{kind: "float64", prim: []float64{1e21, 1.5e-7, -2.5e+100, 5e-324, 1e6, 1.7976931348623157e308}[r.intn(6)]}
+	default:
+		g.stats.leafKinds["uint64"]++
+		return &fnode{kind: "uint64", prim: []uint64{0xff, 0xe, 0x1e5, 0xabcdef, 0}[r.intn(5)]}
+	}
+}
+
+// a key of the class, unique in this value like every key
+func (g *fgen) genEdgeKey() *fnode {
+	for try := 0; try < 8; try++ {
+		n := g.genEdgeLiteral()
+		t, ok := fmtAlone(fbuild(n, nil))
+		if ok && !g.keys[t] {
+			g.keys[t] = true
+			return n
+		}
+	}
+	return g.genKey()
+}
+
+// what may stand on the line behind such a key, or alone between "[" and "]"
+func (g *fgen) genEdgeValue() *fnode {
+	r := g.r
+	switch r.intn(6) {
+	case 0, 1, 2:
+		return g.genEdgeLiteral()
+	case 3:
+		return g.genLeaf("string")
+	default:
+		// a single-item inline collection: the literal stands directly before "]"
+		g.budget--
+		kind := []string{"list", "array", "set", "stack", "queue", "list"}[r.intn(6)]
+		g.stats.contKinds[kind]++
+		return &fnode{kind: kind, kids: []*fnode{g.genEdgeLiteral()}}
+	}
+}
+
+// a collection of the class: associations "key: value" with both ends of the class (one line each, or inline
+// for a single entry), or a single-item / multi-item sequence of such literals
+func (g *fgen) genAdjacency() *fnode {
+	r := g.r
+	g.budget--
+	if r.chance(3, 5) {
+		kind := []string{"catalog", "map", "catalog"}[r.intn(3)]
+		if g.mode >= 1 && r.chance(1, 5) {
+			kind = "gomap"
+		}
+		g.stats.contKinds[kind]++
+		n := &fnode{kind: kind}
+		size := []int{1, 1, 2, 3}[r.intn(4)]
+		if g.noMulti && kind != "catalog" {
+			size = 1
+		}
+		for i := 0; i < size; i++ {
+			n.kids = append(n.kids, g.genEdgeKey())
+			n.vals = append(n.vals, g.genEdgeValue())
+		}
+		return n
+	}
+	kind := []string{"list", "array", "stack", "queue", "list"}[r.intn(5)]
+	g.stats.contKinds[kind]++
+	n := &fnode{kind: kind}
+	for i := []int{1, 1, 1, 2, 3}[r.intn(5)]; i > 0; i-- {
+		n.kids = append(n.kids, g.genEdgeValue())
+	}
+	return n
+}
+
 func (g *fgen) genKey() *fnode {
 	for try := 0; try < 12; try++ {
 		kind := fKeyKinds[g.r.intn(len(fKeyKinds))]
@@ -495,6 +597,9 @@ func (g *fgen) genValue(depth int) *fnode {
 	}
 	if g.mode >= 1 && g.inSet == 0 && r.chance(1, 12) {
 		return g.genTyped()
+	}
+	if r.chance(1, 10) {
+		return g.genAdjacency()
 	}
 	if g.mode >= 1 && r.chance(1, 40) {
 		g.budget--
@@ -1223,8 +1328,10 @@ func genFcase(seed uint64, stats *fstats) *fcaseDesc {
 			for s := []int{0, 0, 1, 2}[r.intn(4)]; s > 0; s-- {
 				n.kids = append(n.kids, g.genValue(r.intn(2)))
 			}
-		case x < 3:
+		case x < 2:
 			n = g.genLeaf(g.leafKind())
+		case x < 5:
+			n = g.genAdjacency()
 		case x < 8:
 			// flat collection of leaves, sizes across 0 / 1 / 2 / 16 / 17 / 40
 			n = g.genContainer(g.contKind(), 0)
